@@ -172,7 +172,7 @@ fn carrier() -> BoxedStrategy<Carrier> {
 fn leaf_node(cfg: &WxmlCfg) -> BoxedStrategy<Node> {
     let mut alts: Vec<(u32, BoxedStrategy<Node>)> = vec![(6, text_node(cfg))];
     if cfg.comments {
-        alts.push((1, prop_oneof![Just(" c "), Just("x"), Just("<view>"), Just("{{a}}"), Just("")].prop_map(|s: &str| Node::Comment(s.to_string())).boxed()));
+        alts.push((1, prop_oneof![Just(" c "), Just("x"), Just("<view>"), Just("{{a}}"), Just(""), Just(" l1\n\u{1f600} l2 "), Just("\r\n\u{1d4b3}")].prop_map(|s: &str| Node::Comment(s.to_string())).boxed()));
     }
     if cfg.tis {
         let e = gexpr::expr(&cfg.expr);
@@ -286,6 +286,7 @@ pub const INLINE_SCRIPTS: &[&str] = &[
     "exports.f = function (a, b) { return [a, b] }; exports.k = 'K'",
     "module.exports = { a: 1, b: { c: 2 }, fn: function () { return this === undefined ? 'plain' : 'method' } }",
     " exports.hi = 1 < 2 ",
+    "var s = '\u{1f600}'\n/* \u{1d4b3} */ exports.hi = s /* \u{1f600} */",
     "",
 ];
 
